@@ -248,7 +248,7 @@ func c11GenGraph(r *vh.Rand, prefix string, depth int, parentVisible bool, ctrs 
 				} else {
 					n.Preds = []int{}
 				}
-				if depth < 2 && r.Chance(map[int]int{0: 22, 1: 10}[depth]) {
+				if depth < 2 && r.Chance(map[int]int{0: 9, 1: 6}[depth]) {
 					sub := c11GenGraph(r, key+"_", depth+1, visible, ctrs, quick, false)
 					n.Sub = &sub
 					if g.Stateful { // handlers of the embedding node work on this graph's state
@@ -298,7 +298,7 @@ func c11Gen(r *vh.Rand, quick bool) *c11Case {
 			flat = false
 		}
 	}
-	if flat && c.G.Stateful && r.Chance(40) {
+	if flat && c.G.Stateful && r.Chance(55) {
 		it := &c11Interrupt{}
 		g := &c.G
 		// candidates by layer
